@@ -190,9 +190,9 @@ fn rechunk_plan(p: &str) -> String {
 }
 
 fn gen_join(r: &mut Rng) -> Case {
-    // L: a:i32 b:i64 c:i32 s:str k:i16     R: x:i32 y:i64 z:i32 w:str u:i16
-    let types = vec![Ty::I32, Ty::I64, Ty::I32, Ty::Str, Ty::I16];
-    let keycols = [true, true, true, true, true];
+    // L: a:i32 b:i64 c:i32 s:str k:i16 f:bool     R: x:i32 y:i64 z:i32 w:str u:i16 g:bool
+    let types = vec![Ty::I32, Ty::I64, Ty::I32, Ty::Str, Ty::I16, Ty::Bool];
+    let keycols = [true, true, true, true, true, false];
     let big_left = r.chance(1, 2);
     let (mut nl, mut nr) = (gen_size(r, big_left), gen_size(r, !big_left));
     if nl > 64 {
@@ -235,38 +235,80 @@ fn gen_join(r: &mut Rng) -> Case {
         on = format!("(and {} (= {} {}))", on, lks[i], rks[i]);
     }
     let filtered = r.chance(1, 5);
-    let l = if filtered { format!("(filter (>= $0.2 1) {})", scan(0, 5)) } else { scan(0, 5) };
-    let rr = scan(1, 5);
+    let l = if filtered { format!("(filter (>= $0.2 1) {})", scan(0, 6)) } else { scan(0, 6) };
+    let rr = scan(1, 6);
+    // conditions that are NULL for some pairs and whose NOT / IN reaches the kernels: a nullable BOOLEAN
+    // bare / under NOT, [NOT] IN (list) with NULL probes and members, NOT (p AND q), NOT (p OR q)
+    let tvl_conds: [&str; 10] = [
+        "(not (and (> $0.1 $1.1) (= $0.3 $1.3)))",
+        "(not (in $0.2 (list $1.2 1)))",
+        "(in $0.2 (list 0 $1.2))",
+        "(not (or $0.5 (< $0.2 $1.2)))",
+        "(and $0.5 (<> $0.2 $1.2))",
+        "(not (and $0.5 $1.5))",
+        "(and (not $1.5) (<= $0.2 $1.2))",
+        "(not (or (= $0.3 $1.3) (isnull $1.1)))",
+        "(and (not (in $1.2 (list 2 $0.2 $0.0))) (not $0.5))",
+        "(not (and (not $0.5) (>= $0.1 $1.1)))",
+    ];
     let semi = jt == "semi" || jt == "anti";
+    let mut tvl = false;
     let resid = if semi && r.chance(1, 2) {
-        Some((*r.pick(&["(> $0.1 $1.1)", "(<> $0.2 $1.2)", "(<= $0.2 $1.2)"])).to_string())
+        if r.chance(1, 2) {
+            tvl = true;
+            Some((*r.pick(&tvl_conds)).to_string())
+        } else {
+            Some((*r.pick(&["(> $0.1 $1.1)", "(<> $0.2 $1.2)", "(<= $0.2 $1.2)"])).to_string())
+        }
+    } else {
+        None
+    };
+    // inner join + a condition: nested loop takes it in ON, hash / merge join under a filter above
+    let above = if jt == "inner" && r.chance(1, 3) {
+        tvl = true;
+        Some((*r.pick(&tvl_conds)).to_string())
+    } else {
+        None
+    };
+    // the condition alone (no equality): nested-loop join of every type, over two chunkings
+    let cond_only = if above.is_none() && resid.is_none() && r.chance(1, 7) {
+        tvl = true;
+        Some((*r.pick(&tvl_conds)).to_string())
     } else {
         None
     };
     let mut plans = vec![];
-    let nl_on = match &resid {
-        Some(c) => format!("(and {on} {c})"),
-        None => on.clone(),
+    let nl_on = match (&resid, &above, &cond_only) {
+        (Some(c), _, _) => format!("(and {on} {c})"),
+        (_, Some(c), _) => format!("(and {on} {c})"),
+        (_, _, Some(c)) => c.clone(),
+        _ => on.clone(),
+    };
+    let wrap = |p: String| match &above {
+        Some(c) => format!("(filter {c} {p})"),
+        None => p,
     };
     // (right / full outer nested-loop joins exist since /repo 7d07810)
     {
         plans.push(("nl".to_string(), format!("(join {jt} {nl_on} {l} {rr})")));
     }
     let cond = resid.clone().unwrap_or("true".into());
-    plans.push((
-        "hash".to_string(),
-        format!("(hashjoin {jt} {cond} (list {}) (list {}) {l} {rr})", lks.join(" "), rks.join(" ")),
-    ));
-    if !semi {
+    if cond_only.is_none() {
+        plans.push((
+            "hash".to_string(),
+            wrap(format!("(hashjoin {jt} {cond} (list {}) (list {}) {l} {rr})", lks.join(" "), rks.join(" "))),
+        ));
+    }
+    if !semi && cond_only.is_none() {
         plans.push((
             "merge".to_string(),
-            format!(
+            wrap(format!(
                 "(mergejoin {jt} true (list {}) (list {}) (order (list {}) {l}) (order (list {}) {rr}))",
                 lks.join(" "),
                 rks.join(" "),
                 lks.join(" "),
                 rks.join(" ")
-            ),
+            )),
         ));
     }
     let n0 = plans.len();
@@ -291,7 +333,7 @@ fn gen_join(r: &mut Rng) -> Case {
                 _ => "i64=i16",
             },
             if pairs.len() > 1 { "two-keys " } else { "" },
-            if resid.is_some() { "residual" } else { "" }
+            if cond_only.is_some() { "cond-only tvl" } else if above.is_some() { "filter-above tvl" } else if resid.is_some() && tvl { "residual tvl" } else if resid.is_some() { "residual" } else { "" }
         ),
         compare: "bag",
     }
